@@ -611,6 +611,63 @@ pub fn faults<B: Backend>(rec: &mut Recorder, st: &mut Stats, cfg: &Cfg) {
     }
 }
 
+/// key generation, observed as an operation of its own (C16)
+fn keygen<B: Backend>(rec: &mut Recorder, kind: &str, rng_fail: Option<(usize, bool)>) -> usize {
+    rec.emit(json!({"ev":"KeyGenCall","be":B::NAME,"ver":B::VER,"kind":kind}));
+    spy_take();
+    rng::reset(rng::Source::Os, true, rng_fail.map(|x| x.0), rng_fail.map(|x| x.1).unwrap_or(false));
+    let r = catch_unwind(AssertUnwindSafe(|| -> Result<Vec<u8>, paseto_core::PasetoError> {
+        if kind == "local" { LocalKey::<B>::random().map(|k| key_bytes(&k)) } else { SecretKey::<B>::random().map(|k| key_bytes(&k)) }
+    }));
+    let ndraws = rng::take_log().len();
+    rng::passthrough();
+    emit_draws(rec);
+    match r {
+        Err(p) => rec.emit(json!({"ev":"Panic","where":"keygen","be":B::NAME,"payload":panic_text(p)})),
+        Ok(Err(e)) => rec.emit(json!({"ev":"KeyGenRet","ok":false,"errc":errc(&e),"err":errname(&e),"key":0})),
+        Ok(Ok(k)) => {
+            let kid = rec.intern(&k);
+            rec.emit(json!({"ev":"KeyGenRet","ok":true,"key":kid,"errc":"","len":k.len()}));
+        }
+    }
+    ndraws
+}
+
+/// C16: consecutive wraps / seals / key generations with identical inputs: every random field must be new
+pub fn fresh<B: Backend>(rec: &mut Recorder, st: &mut Stats, cfg: &Cfg) {
+    let mut rng = Prng::new(cfg.seed, &format!("c16p-{}", B::NAME));
+    let w = world::<B>(&mut rng, 1);
+    let n = if cfg.thorough { 10000 } else { 400 };
+    rec.emit(json!({"ev":"Reset","scenario":format!("fresh-wraps-{}", B::NAME)}));
+    learn_recipients(rec, &w);
+    let k = &w.locals[2];
+    let cost = small_cost(B::VER, 0);
+    for _ in 0..n {
+        pie_wrap::<B, Local>(rec, st, k, k, None);
+        pw_wrap::<B, Local>(rec, st, k, b"same password", Some(cost), None);
+        pke_seal::<B>(rec, st, k, &w.recipients[0].public, None);
+        keygen::<B>(rec, "local", None);
+    }
+    // secret-key generation (RSA for v1 is slow: a handful)
+    let ns = if B::VER == 1 { if cfg.thorough { 40 } else { 3 } } else { n };
+    for _ in 0..ns {
+        keygen::<B>(rec, "secret", None);
+    }
+    // fail every draw of key generation
+    if B::GETRANDOM03 {
+        for kind in ["local", "secret"] {
+            if B::VER == 1 && kind == "secret" {
+                continue; // RSA key generation draws from getrandom 0.2 (OsRng), not interceptable here
+            }
+            let nd = keygen::<B>(rec, kind, None);
+            for i in 0..nd {
+                keygen::<B>(rec, kind, Some((i, false)));
+                keygen::<B>(rec, kind, Some((i, true)));
+            }
+        }
+    }
+}
+
 pub fn run(rec: &mut Recorder, cfg: &Cfg) -> Stats {
     let mut st = Stats::default();
     fn one<B: Backend>(rec: &mut Recorder, st: &mut Stats, cfg: &Cfg) {
@@ -619,6 +676,7 @@ pub fn run(rec: &mut Recorder, cfg: &Cfg) -> Stats {
             "roundtrip" => roundtrip::<B>(rec, st, cfg),
             "tamper" | "relabel" => tamper::<B>(rec, st, cfg),
             "faults" => faults::<B>(rec, st, cfg),
+            "fresh" => fresh::<B>(rec, st, cfg),
             m => panic!("unknown mode {m}"),
         }
     }
